@@ -37,3 +37,7 @@ func VerifNewNamespaceWatcher(l *logrusx.Logger, target string) VerifHandler {
 func VerifStartEventHandler(ctx context.Context, eventCh watcherx.EventChannel, h VerifHandler, done <-chan int, initialEventsProcessed chan<- struct{}, l *logrusx.Logger) {
 	startEventHandler(ctx, eventCh, h, done, initialEventsProcessed, l)
 }
+
+// VerifConfigChanged invokes the callback keto registers with the configuration file watcher,
+// i.e. what happens when ANY key of the main config file changes on disk.
+func VerifConfigChanged(k *Config) { k.watcher(nil, nil) }
